@@ -266,7 +266,7 @@ class LegalTraceGenerator:
                         return
                 elif can_cas and cyc - last_wr > wl + 6:
                     b, rw, cw = sweep[0]
-                    if open_row.get(b) == rw and cyc - last_act.get(b, -10) >= 3:
+                    if open_row.get(b) == rw and cyc - last_act.get(b, -10) >= r.choice([1, 2, 3]):
                         stm += cmd(ph, 0, 1, 0, b, colbus(cw))
                         stm += [dfi.phases[ph].rddata_en.eq(1)]
                         last_cas = last_rd = cyc
@@ -296,7 +296,9 @@ class LegalTraceGenerator:
                     del open_row[b]
                 issued += 1
             elif banks_open and can_cas and not self.init_only:
-                ready = [b for b in banks_open if cyc - last_act[b] >= 3]
+                # column command as early as the cycle after the ACTIVATE (tRCD of one controller cycle, as at low clocks)
+                min_gap = r.choice([1, 1, 2, 3])
+                ready = [b for b in banks_open if cyc - last_act[b] >= min_gap]
                 if ready:
                     b = r.choice(ready)
                     cw = r.randrange(ncols // self.bl) if r.random() < 0.5 else r.randrange(4)
